@@ -30,7 +30,7 @@ python3 - <<'PY'
 import json,collections,os
 det=collections.defaultdict(list)
 last={}
-for l in open('/verif/seeded/matrix.tsv'):
+for l in open('/verif/seeded/matrix.tsv', errors='replace'):
     s,c,rc,first=l.rstrip('\n').split('\t')
     last[(s,c)]=rc          # a later run of the same pair supersedes an earlier one
 for (s,c),rc in last.items():
